@@ -203,7 +203,56 @@ func c04Body(g *rpGen, id int) []Sx {
 	return ops
 }
 
+// a chain longer than the per-route limit: global middleware on top of large group and route chains (64..110 handlers);
+// most handlers do not call Next (the chain advances by itself), a few outer ones do
+func c04Long(r *Rng) Sx {
+	nNext := r.Intn(4)
+	g := &rpGen{r: r, nextMW: 1, depthMax: 1}
+	g.mwBody = func(g *rpGen, id int) []Sx {
+		if id <= nNext {
+			return []Sx{ev(id * 10), L(A("next")), ev(id*10 + 1)}
+		}
+		if g.r.Chance(1, 5) {
+			return []Sx{ev(id * 10), ev(id*10 + 1)}
+		}
+		return []Sx{ev(id * 10)}
+	}
+	many := func(n int) []Sx {
+		var out []Sx
+		for k := 0; k < n; k++ {
+			out = append(out, g.newMW())
+		}
+		return out
+	}
+	ng := r.Range(3, 48)
+	gm := r.Range(0, 30)
+	rm := r.Range(64-ng-gm, 61-gm)
+	if rm < 0 {
+		rm = 0
+	}
+	var stmts []Sx
+	for ng > 0 { // several Use calls
+		k := r.Range(1, ng)
+		stmts = append(stmts, LS(append([]Sx{A("use")}, many(k)...)))
+		ng -= k
+	}
+	g.hs = append(g.hs, L(I(900), L(ev(9000))))
+	route := L(A("route"), SL([]string{"GET"}), S("/long"), I(900), LS(many(rm)), L(), S(""))
+	if gm > 0 {
+		stmts = append(stmts, L(A("group"), S("/g"), LS(many(gm)), L(route)))
+		g.reqs = append(g.reqs, L(S("GET"), S("/g/long"), L()))
+	} else {
+		stmts = append(stmts, route)
+		g.reqs = append(g.reqs, L(S("GET"), S("/long"), L()))
+	}
+	g.reqs = append(g.reqs, L(S("GET"), S("/nope"), L()))
+	return g.finish(nil, stmts)
+}
+
 func c04Gen(r *Rng, tier string, i int) Sx {
+	if i%16 == 15 {
+		return c04Long(r)
+	}
 	g := &rpGen{r: r, nextMW: 1, mwBody: c04Body, depthMax: r.Range(0, 4)}
 	stmts := g.block(0, "", r.Range(1, 5))
 	if g.routeIx == 0 {
@@ -268,7 +317,31 @@ func (g *rpGen) mwsFallback(code int) []Sx {
 
 // ---------------- C05 ----------------
 // one route behind n-1 middleware (global / group / route), an aborting handler at a chosen position
+// an abort, then a panic that escapes ServeHTTP (no hook), then further requests on the same router: the abort state of the
+// first request must not be visible to them
+func c05AfterPanic(r *Rng) Sx {
+	kind := []Sx{L(A("abort")), L(A("abortthen")), L(A("abs"), I(403))}[r.Intn(3)]
+	hs := []Sx{
+		L(I(1), L(ev(10), L(A("isab")), L(A("next")), L(A("isab")), ev(11))),
+		L(I(2), L(ev(20), L(A("next")), L(A("panic"), I(4)))),
+		L(I(90), L(ev(900), ev(9090), kind, L(A("isab")))),
+		L(I(3), L(ev(30), L(A("isab")), L(A("next")), ev(31))),
+		L(I(91), L(ev(910), L(A("isab")))),
+	}
+	stmts := []Sx{L(A("use"), I(1)),
+		L(A("route"), SL([]string{"GET"}), S("/x"), I(90), L(I(2)), L(), S("")),
+		L(A("route"), SL([]string{"GET"}), S("/y"), I(91), L(I(3)), L(), S(""))}
+	reqs := []Sx{L(S("GET"), S("/x"), L()), L(S("GET"), S("/y"), L())}
+	for k := r.Intn(3); k > 0; k-- {
+		reqs = append(reqs, L(S("GET"), S(r.Pick([]string{"/x", "/y", "/none"})), L()))
+	}
+	return L(A("rp"), L(), LS(stmts), LS(hs), LS(reqs))
+}
+
 func c05Gen(r *Rng, tier string, i int) Sx {
+	if i%20 == 19 {
+		return c05AfterPanic(r)
+	}
 	n := r.Range(1, 12)
 	switch r.Intn(10) {
 	case 0:
